@@ -86,7 +86,9 @@ def run(rep, tier, rng):
                        "(NaN in Z/M, infinities, sentinel-adjacent values included); bytes and operation traces compared with "
                        "the model; oracle: bytes == bytes of the writes-only history ended by drop, every committing finalize "
                        "leaves a strictly decodable complete file with the right record count, clean finalize issues no "
-                       "operation; non-trivial = distinct case" % (L, extra))
+                       "operation; plus write, finalize failing once at each of its operations on either destination, then finalize "
+                       "again / twice / drop: same files; plus path-created files (stale longer files, dotted and upper-case "
+                       "names); non-trivial = distinct case" % (L, extra))
     rep.sample({"history": "".join(meta[5]["calls"]), "ending": meta[5]["ending"], "case_prefix": cases[5][:12]})
     impl = stages.correspondence(rep, "whist", dev, cases, "whist")
     bl = list(base_cases)
@@ -101,5 +103,42 @@ def run(rep, tier, rng):
             if nfail == 1:
                 rep.violation({"kind": "oracle", "what": msg, "case_kind": "whist", "case": c, "history": "".join(m["calls"]),
                                "ending": m["ending"], "impl_result": r})
-    rep.cov["oracle"] = {"histories_checked": len(cases), "failing": nfail}
+    # ---- a finalize that fails part-way (one-shot fault at any of its operations on either destination) followed by
+    # another finalize with no write in between: the files are still those of the writes followed by a plain drop
+    fcases, fmeta = [], []
+    fcodes = shapes.ALL_CODES if tier == "thorough" else [shapes.ALL_CODES[i] for i in (1, 6, 9, 12)]
+    for code in fcodes:
+        a = shapes.gen_ctor(rng, code, "small")
+        b0 = C.parse_whist(sfv.run_impl(dev, [C.whist_case(True, 0, [("w", a)])])[0])
+        if "special" in b0:
+            continue
+        for dest, n0 in ((1, b0["shp"]["ops"] - 16), (2, b0["shx"]["ops"] - 16)):
+            for j in range(16):
+                for tail in ([("f",)], [("f",), ("f",)], []):
+                    fcases.append(C.whist_case(True, 0, [("w", a), ("f",)] + tail, fault=(dest, n0 + j, 0)))
+                    fmeta.append((code, dest, j, b0))
+    fimpl = stages.correspondence(rep, "whist_fault", dev, fcases, "whist(finalize failing once, then finalize / drop)")
+    for c, (code, dest, j, b0), r in zip(fcases, fmeta, fimpl):
+        res = C.parse_whist(r)
+        if "special" in res:
+            msg = "writer panicked"
+        elif res["shp"]["buf"] != b0["shp"]["buf"] or res["shx"]["buf"] != b0["shx"]["buf"]:
+            msg = ("after a finalize that failed at its operation %d on destination %d and the following finalize / drop, the "
+                   "files differ from those of the write followed by a plain drop" % (j, dest))
+        else:
+            msg = None
+        if msg:
+            nfail += 1
+            if nfail == 1:
+                rep.violation({"kind": "oracle", "what": msg, "case_kind": "whist", "case": c})
+    rep.cov["failed_finalize_histories"] = len(fcases)
+    # files created by path: a path that already holds longer files, dotted and upper-case names
+    pfiles = []
+    for code in shapes.ALL_CODES[:8 if tier != "thorough" else 13]:
+        pf = {"code": code, "specs": [shapes.gen_ctor(rng, code, "small") for _ in range(2)]}
+        pf["written"] = C.parse_whist(sfv.run_impl(dev, [C.whist_case(True, 0, [("w", sp) for sp in pf["specs"]])])[0])
+        pfiles.append(pf)
+    import pipeline as P
+    P.path_situations(rep, pfiles, "c09", with_reads=False)
+    rep.cov["oracle"] = {"histories_checked": len(cases) + len(fcases), "failing": nfail}
     rep.assumptions += ["destinations are Cursor<Vec<u8>>-like (write at position, zero fill, seek Start/End): the harness device"]
